@@ -422,6 +422,7 @@ func runC14(c *Ctx) {
 	// insert must not replace the first: under the write lock the entry is looked up again, the
 	// insert happens only when it is still absent, and otherwise the instance found is what the
 	// retrieval hands back.
+	importRules(c, runC11, map[string]string{"C11.R4": "C14.R8"}, map[string]string{"C14.R8": "what a file list hands back does not depend on the retrievals before it: of the read buffer that the list's lock guards only the bytes of this read are looked at (shared with C11.R4)"})
 	{
 		c.Rule("C14.R7", "LOCK", "the cache insert re-checks the entry under the write lock and keeps the instance already stored", 1)
 		nIns := 0
